@@ -157,3 +157,6 @@ void enumerate(const Emit& emit, const std::string&) {
       for (int ib = 0; ib < d * d; ib++)
         emit({0, (uint8_t)(d - 2), (uint8_t)ia, (uint8_t)ib});
 }
+
+// no defect of the pinned tree was found behind this property
+void regressions() {}
